@@ -449,6 +449,35 @@ func rulePosCallsite(c *Ctx, r *R) {
 					call, ok := i.(ssa.CallInstruction)
 					return ok && entries[call.Common().StaticCallee()]
 				})
+				// the position stored must be a real one on every path: a negative constant makes newError and
+				// Context skip the caller's frame altogether
+				neg := false
+				{
+					seen := map[ssa.Value]bool{}
+					var walk func(v ssa.Value)
+					walk = func(v ssa.Value) {
+						if seen[v] {
+							return
+						}
+						seen[v] = true
+						switch y := v.(type) {
+						case *ssa.Const:
+							if k, ok := constInt(y); ok && k < 0 {
+								neg = true
+							}
+						case *ssa.Convert:
+							walk(y.X)
+						case *ssa.ChangeType:
+							walk(y.X)
+						case *ssa.Phi:
+							for _, e := range y.Edges {
+								walk(e)
+							}
+						}
+					}
+					walk(st.Val)
+				}
+				r.check(!neg, "offset-valid:"+ssaFuncName(fn), c.Pos(instrPos(ins)), "the stored call-site offset is a node position on every path (never the `no position` constant)", "on some path the offset stored into the caller's frame is the constant -1 (callee that is not an identifier or member expression: `(function(){ null.x })()`, `g()()`): newError and Context skip frames with a negative offset, so the calling activation disappears from the stack trace")
 				r.check(res.ok, "offset-store:"+ssaFuncName(fn), c.Pos(instrPos(ins)), "call-site offset stored after the arguments are evaluated, right before the invocation", "the call-site offset is stored into the caller's frame before further expressions are evaluated: a call made while evaluating an argument overwrites it, so stack traces report the argument's position for the outer call")
 			}
 		}
